@@ -50,4 +50,9 @@ def check(ctx) -> Result:
     res.floor("cache stores", res.stats.get("cache_stores", 0), 7)
     res.floor("refresh observables", res.stats.get("refresh_observables", 0), 10)
     res.floor("result-field reads", res.stats.get("result_field_reads", 0), 4)
+    from ..rules import rf_cache as _rf
+    n7 = 0
+    for _cn in ['Sampler', 'QuickSampler', 'Analyzer']:
+        n7 += _rf.f7_setters_store_the_object(ctx, res, ctx.ix.cls(_cn))
+    res.floor("F7 setter stores", n7, 3)
     return res
